@@ -81,6 +81,7 @@ HARD_ERR = re.compile(r"^(E\d+)$")
 def classify(group, res):
     """Map verus diagnostics to failed clauses / body failures / tool errors."""
     fails = []     # dicts: clause (or None), fn, msg, rendered, where
+    group.canary_failed = set()
     tool = []      # compile / unsupported errors
     gen_name = os.path.basename(group.gen_path)
     for d in res["diags"]:
@@ -137,6 +138,14 @@ def classify(group, res):
             tool.append({"msg": msg, "rendered": d.get("rendered", "")[:2000], "hints": hints, "unsize": unsize, "havoc": havoc, "in_src": in_src})
             continue
         hit_clauses, hit_src, hit_tmpl = [], [], []
+        canary_hit = False
+        for s in spans:
+            ln = s.get("line_start", 0)
+            if 1 <= ln <= len(group.out.map) and group.out.map[ln - 1]["kind"] == "canary":
+                group.canary_failed.add(group.out.map[ln - 1]["name"])
+                canary_hit = True
+        if canary_hit:
+            continue   # expected failure of a vacuity canary
         for s in spans:
             ln = s.get("line_start", 0)
             if 1 <= ln <= len(group.out.map):
@@ -261,8 +270,10 @@ def verify_group(gname, scratch, rlimit=30):
         status, reason = "undecided", "resource limit"
     elif fails:
         status = "failed"
-    elif not res["json"]["verification-results"]["success"]:
+    elif not res["json"]["verification-results"]["success"] and not g.canaries:
         status, reason = "undecided", "verus reports failure without a mapped diagnostic"
+    if status in ("ok", "failed") and set(g.canaries) - g.canary_failed:
+        status, reason = "undecided", "vacuity canary verified (assumptions inconsistent?): %s" % sorted(set(g.canaries) - g.canary_failed)
     assumptions = scan_assumptions(g)
     forbidden = [a for a in assumptions if a["what"] in ("assume", "admit") and a["kind"] == "src"]
     if forbidden:
@@ -386,6 +397,7 @@ def report(pid, pc, tier, seed, results, extra_results, wall):
     syn_fail = []
     fn_of_prop = set()
     functions, assumptions, rewrites, lost = [], [], [], []
+    canaries, havocs = [], []
     per_fn_time = []
     verified_items = 0
     cmds = []
@@ -427,6 +439,8 @@ def report(pid, pc, tier, seed, results, extra_results, wall):
         for a in r["assumptions"]:
             assumptions.append("%s %s (%s, group %s)" % (a["what"], a["name"], a["origin"], g.name))
         rewrites += [dict(x, group=g.name) for x in g.rewrites if x.get("item") in fn_of_prop]
+        canaries += [{"group": g.name, "canary": c, "failed_as_required": c in g.canary_failed} for c in g.canaries]
+        havocs += [{"group": g.name, "decl": h} for h in getattr(g, "havoc", [])]
         lost += g.lost
     # ---- failures relevant to this property
     failed = {}   # clause id -> failure
@@ -529,6 +543,8 @@ def report(pid, pc, tier, seed, results, extra_results, wall):
             "per_function_smt": sorted(per_fn_time, key=lambda x: -x["smt_s"])[:40],
             "rewrites": rewrites[:200],
             "lost_optional_anchors": lost,
+            "vacuity_canaries": canaries,
+            "unspecified_std_functions": havocs,
             "not_covered": pc.get("not_covered", []),
             "spec_sha256": spec_hashes,
             "kani": kani_ev,
